@@ -154,9 +154,11 @@ Flush(from, to) ==
         /\ IF Fixed THEN closed' = TRUE /\ connClosed' = TRUE ELSE UNCHANGED <<closed, connClosed>>
   /\ UNCHANGED <<once, caller, gctx, firstErr, info, ver, rows, tail, round, cbS>> /\ SU
 
-(* a blocked write ends when the connection is closed under it (cancelQuery, a foreign Close): it fails *)
+(* a blocked write ends when the connection is closed under it (cancelQuery, a foreign Close) or when the          *)
+(* connection breaks under it (WBreak: the peer resets it), having taken none or a part of the packet: it fails,   *)
+(* whatever has happened to the context in the meantime (the check of the context precedes the write)            *)
 S_WriteWake ==
-  /\ spc = "wblocked" /\ connClosed
+  /\ spc = "wblocked" /\ (connClosed \/ wbroken \/ caller = "deadline")     \* (flush gives the write the deadline of the context)
   /\ pend' = <<>> /\ spc' = "ret" /\ Ret("S", "err")
   /\ IF Fixed THEN closed' = TRUE /\ connClosed' = TRUE ELSE UNCHANGED <<closed, connClosed>>
   /\ UNCHANGED <<once, c2s, caller, gctx, firstErr, info, ver, rows, tail, round, cbS, wbroken>> /\ SU
@@ -395,6 +397,14 @@ Stall ==
   /\ AllowStall /\ phase = "inDo" /\ ~stalled /\ stalled' = TRUE
   /\ UNCHANGED <<s2c, sidx, caller, gctx, closed, connClosed, cancelAt, cancelClean>> /\ EnvU
 
+(* the connection breaks while a write is blocked on it *)
+WBreak ==
+  /\ AllowStall /\ phase = "inDo" /\ spc = "wblocked" /\ ~connClosed /\ ~wbroken
+  /\ wbroken' = TRUE
+  /\ \E part \in BOOLEAN : c2s' = c2s \o (IF part THEN <<Tok("partial", 0)>> ELSE <<>>)    \* what the connection took of the packet
+  /\ UNCHANGED <<cfg, spc, rpc, wpc, rerr, once, pend, firstErr, gotExc, done, info, ver, rows, tail, round,
+                 cbS, cbR, seenRows, cblog, call, phase, lateFault, s2c, sidx, caller, gctx, closed, connClosed, cancelAt, cancelClean>>
+
 ForeignClose ==
   /\ AllowForeignClose /\ phase = "inDo" /\ ~closed
   /\ closed' = TRUE /\ connClosed' = TRUE
@@ -430,6 +440,7 @@ Next ==
   \/ CallerCancel("deadline") /\ Log("D") /\ UNCHANGED stalled
   \/ ForeignClose /\ Log("X") /\ UNCHANGED stalled
   \/ Stall /\ Log("Z")
+  \/ WBreak /\ Log("B") /\ UNCHANGED stalled
   \/ \E x \in Roles : G_Once(x)
   \/ DoReturn /\ Log("Ret") /\ UNCHANGED stalled
   \/ NextReq /\ Log("Next") /\ UNCHANGED stalled
